@@ -23,7 +23,8 @@ RULE = ("one case = one generated nested column (content x layout recipe) on whi
         "non-trivial = at least one non-empty present row")
 ASSUMPTIONS = ["pyarrow to_pylist() is the independent logical read-back",
                "boxing a row into a pandas DataFrame cannot tell NaN from null: the element view is compared modulo that"]
-CORRESPONDENCE = "model_views_detail (ExtArray.v m_* functions) vs the real views"
+CORRESPONDENCE = "model_views_detail (ExtArray.v m_* functions) and m_iter_field_lists (NumpyView.v) vs the real views"
+EXTRA_IMPORTS = "NumpyView"
 
 
 def collect_views(ca: pa.ChunkedArray, arr: NEA):
@@ -95,6 +96,25 @@ def collect_views(ca: pa.ChunkedArray, arr: NEA):
 
     v_flat2 = attempt(flat_series_view)
 
+    def mapping_view():
+        acc = s.nest
+        assert list(acc) == names and len(acc) == len(names) and list(acc.keys()) == names, "iteration / len / keys of the accessor"
+        assert all(nm in acc for nm in names) and "no_such_field" not in acc and acc.get("no_such_field") is None, "membership / get"
+        cols, idxs = [], []
+        for nm, fs in acc.items():
+            assert fs.name == nm
+            cols.append(core.child_values(fs.array._pa_array.combine_chunks()))
+            idxs.append([ordinal[x] for x in fs.index])
+        vals = [core.child_values(fs.array._pa_array.combine_chunks()) for fs in acc.values()]
+        assert cq_list(cq_vals(c) for c in vals) == cq_list(cq_vals(c) for c in cols), "values() differs from items()"
+        assert all(i == idxs[0] for i in idxs)
+        return (idxs[0], cols)
+
+    v_map = attempt(mapping_view)
+    if v_flat2[0] == "ok" and (v_map[0] != "ok" or repr_flat(v_map) != repr_flat(v_flat2)):
+        agree = False
+        notes.append(f"the accessor read as a mapping (keys / items / values / in / get) differs from the flat series: {str(v_map)[:200]}")
+
     def frame_view():
         nf = NestedFrame({"base": list(range(n))}, index=s.index)
         nf["n"] = s
@@ -157,6 +177,49 @@ def collect_views(ca: pa.ChunkedArray, arr: NEA):
                     bad.append(f"iter_field_lists({c!r}) row {i}: {np_form(got[i])} but the row alone is {want}")
         return bad
     v_iter = attempt(iter_lists_view)
+
+    # ... and the same arrays against the Coq model (NumpyView.v): dtype and values of every row
+    ROUNDED = 1 << 67
+
+    def np_obs(x, ety):
+        x = np.asarray(x)
+        if x.ndim == 0:
+            assert x.dtype == object and x.item() is None, f"0-d array {x!r}"
+            return None
+        d = str(x.dtype)
+        kind = {"int64": "DInt64", "float64": "DFloat64", "bool": "DBool", "object": "DObject"}.get(
+            d, "DDatetime" if d.startswith("datetime64") else "DOtherT")
+        vals = []
+        for v in x:
+            if isinstance(v, np.datetime64) and np.isnat(v):
+                vals.append(("null",))
+            elif kind == "DFloat64" and ety == "TI64":
+                f = float(v)
+                if f != f:
+                    vals.append(("null",))
+                elif abs(f) < 2.0 ** 53 and f == int(f):
+                    vals.append(("int", int(f)))
+                else:
+                    vals.append(("tok", ROUNDED))
+            else:
+                t = core.tok(v)
+                vals.append(("null",) if t == ("tok", core.NAN_TOKEN) else t)
+        return (kind, vals)
+
+    def cq_nprow(r):
+        return "None" if r is None else f"(Some ({r[0]}, {cq_vals_tok(r[1])}))"
+
+    def cq_vals_tok(ts):
+        return cq_list(core.cq_val(t) for t in ts)
+
+    iter_items = []
+    for f_ in st:
+        ety = core.ety_of(f_.type.value_type)
+        got = attempt(lambda: [np_obs(x, ety) for x in arr.iter_field_lists(f_.name)])
+        iter_items.append(f"({core.cq_str(f_.name)}, {cq_res(got, lambda rs: cq_list(cq_nprow(r) for r in rs))})")
+    unknown = attempt(lambda: list(arr.iter_field_lists("no_such_field")))
+    iter_items.append(f"({core.cq_str('no_such_field')}, {cq_res(unknown, lambda rs: '[]')})")
+    iter_term = cq_list(iter_items)
     if v_lists[0] == "ok" and (v_iter[0] != "ok" or v_iter[1]):
         agree = False
         notes.append(f"iter_field_lists differs from the list view row by row: {str(v_iter[1])[:300]}")
@@ -200,7 +263,7 @@ def collect_views(ca: pa.ChunkedArray, arr: NEA):
                              ("to_lists", v_lists)] if v[0] == "err"]
     impl_repr = {"len": v_len, "isna": v_isna, "list_lengths": v_lengths, "flat_length": v_flat_length,
                  "raised": raised, "python_side_notes": notes}
-    return term, agree, impl_repr, bool(raised)
+    return term, agree, impl_repr, bool(raised), iter_term
 
 
 def repr_flat(v):
@@ -266,9 +329,10 @@ def generate(ctx):
                 term = f"(let P := {core.cq_phys(ph)} in [negb (is_ok (m_init P true)); false; wf_b P; lcol_eqb (abs P) {core.cq_lcol(lg)}])"
                 impl_repr, raised = {"constructor": built}, True
             else:
-                vterm, agree, impl_repr, raised = collect_views(ca, built[1])
+                vterm, agree, impl_repr, raised, iterm = collect_views(ca, built[1])
                 term = (f"(let P := {core.cq_phys(ph)} in let L := {core.cq_lcol(lg)} in let V := {vterm} in "
-                        f"match chk_views P L V with [a; b; c; s] => [a; b && {core.cq_bool(agree)}; c; s] | l => l end)")
+                        f"match chk_views P L V, chk_iter_all P L {iterm} with [a; b; c; s], [a2; b2; c2; s2] => "
+                        f"[a && a2; b && {core.cq_bool(agree)} && b2; c && c2; s && s2] | l, _ => l end)")
             nonempty = any(r is not None and any(len(v) for v in r.values()) for r in rows)
             cases.append({
                 "cid": i, "stream": "views", "op": "views", "term": term,
